@@ -66,3 +66,20 @@ package aquahash
 //@   ensures[C13] @start !a8 && !a67 && !a5 && !a3 && !h2 && !h1 ==> big(result) == ite(mainnet, imax(hs, 99999999), hs)
 //@   ensures[C13] @minimum h2 && !a8 && !a5 && !a3 ==> big(result) >= minimum
 //@   nopanic[C13]
+
+// ---- issuance (C05) -----------------------------------------------------------------------
+// Below height 42,000,000 a block creates exactly R + n*(R div 32) for its miner and
+// ((8 + uncleHeight - height) * R) div 8 for each of its n uncles' miners (R = 10^18);
+// from that height on it creates nothing.
+//@ macro unclesok(uncles) = forall i int :: 0 <= i && i < len(uncles) ==> uncles[i] != nil && uncles[i].Number != nil
+//@ func accumulateRewards
+//@   requires header != nil && header.Number != nil && state != nil && unclesok(uncles) && big(header.Number) >= 0
+//@   let h = old(big(header.Number))
+//@   let usum = unclesum(old(arr(uncles)), off(uncles), uint64(len(uncles)), old(heapof("F:gitlab.com/aquachain/aquachain/core/types.Header.Number")), old(heapof("big")), h)
+//@   ensures[C05] @after h >= 42000000 ==> supply == old(supply)
+//@   ensures[C05] @schedule h < 42000000 ==> supply == old(supply) + REWARD + U(uint64(len(uncles))) * 31250000000000000 + usum
+//@   loop 1 invariant[C05] 0 <= $k && $k <= len(uncles) && reward != nil && r != nil && reward != r && notconst(reward) && notconst(r) && fresh(reward) && fresh(r)
+//@   loop 1 invariant[C05] big(reward) == REWARD + U(uint64($k)) * 31250000000000000
+//@   loop 1 invariant[C05] supply == old(supply) + unclesum(old(arr(uncles)), off(uncles), uint64($k), old(heapof("F:gitlab.com/aquachain/aquachain/core/types.Header.Number")), old(heapof("big")), h)
+//@   loop 1 invariant[C05] (forall j int :: 0 <= j && j < len(uncles) ==> big(uncles[j].Number) == old(big(uncles[j].Number)) && uncles[j].Number == old(uncles[j].Number) && uncles[j] == old(uncles[j])) && big(header.Number) == h
+//@   nopanic[C05]
